@@ -47,31 +47,84 @@ theorem gen_dropIdle {N : Nat} {db : DB} {h : Bool} {x : Option Raw} {rest : Lis
   exact ⟨⟨fun r hr => pt.idle r (hsub r hr), pt.inval, fun e => by cases e⟩,
          ⟨sb.next, fun r hr => sb.idle r (hsub r hr), fun e => by cases e⟩⟩
 
+theorem preSpec_gen {N : Nat} {db db1 : DB} {o : Option Raw} (hp : PreSpec db db1 o)
+    (hg : Gen N db false) : Gen N db1 false := by
+  obtain ⟨pt, sb⟩ := hg
+  refine ⟨⟨?_, ?_, fun e => by cases e⟩, ⟨?_, ?_, fun e => by cases e⟩⟩
+  · intro r hr
+    have := pt.idle r (hp.idle r hr)
+    have := hp.clock
+    rw [hp.invalTime, hp.nextRid]
+    exact ⟨by omega, by omega, by omega⟩
+  · have := pt.inval; have := hp.clock; rw [hp.invalTime]; omega
+  · rw [hp.nextRid]; exact sb.next
+  · intro r hr hlt
+    rw [hp.invalTime]
+    exact sb.idle r (hp.idle r hr) hlt
+
+theorem tick_gen {N : Nat} {db : DB} {h : Bool} (hg : Gen N db h) : Gen N db.tick.1 h := by
+  obtain ⟨pt, sb⟩ := hg
+  refine ⟨⟨?_, ?_, ?_⟩, ⟨sb.next, sb.idle, sb.held⟩⟩
+  · intro r hr
+    have := pt.idle r hr
+    simp only [DB.tick] at hr ⊢
+    exact ⟨by omega, this.2.1, this.2.2⟩
+  · have := pt.inval
+    simp only [DB.tick]; omega
+  · intro e
+    have := pt.held e
+    simp only [DB.tick]
+    exact ⟨by omega, this.2.1, this.2.2⟩
+
 theorem checkout_gen {N : Nat} {db : DB} (hg : Gen N db false) : Gen N (db.checkout) true := by
-  unfold DB.checkout
-  split
-  · exact newRaw_gen hg
-  · rename_i rest he
-    exact newRaw_gen (gen_dropIdle hg he)
-  · rename_i r rest he
-    have hd := gen_dropIdle hg he
-    obtain ⟨hb, hne, hrid⟩ := hg.1.idle r (by rw [he]; exact List.mem_cons_self)
-    simp only []
-    split
-    · exact newRaw_gen hd
-    · rename_i hns
-      have hgt : db.invalTime < r.born := by
-        simp only [gt_iff_lt, Nat.not_lt] at hns
+  apply checkout_cases db (fun d => Gen N d true)
+  · intro db1 r hp
+    have hd := preSpec_gen hp hg
+    obtain ⟨hin, hns⟩ := hp.out r rfl
+    obtain ⟨hb, hne, hrid⟩ := hg.1.idle r hin
+    have hgt : db.invalTime < r.born := by
+      simp only [gt_iff_lt, Nat.not_lt] at hns
+      omega
+    have hN : N ≤ r.rid := by
+      rcases Nat.lt_or_ge r.rid N with hlt | hge
+      · have := hg.2.idle r hin hlt
         omega
-      have hN : N ≤ r.rid := by
-        rcases Nat.lt_or_ge r.rid N with hlt | hge
-        · have := hg.2.idle r (by rw [he]; exact List.mem_cons_self) hlt
-          omega
-        · exact hge
-      obtain ⟨pt, sb⟩ := hd
-      split
-      · exact ⟨⟨pt.idle, pt.inval, fun _ => ⟨hb, hgt, hrid⟩⟩, ⟨sb.next, sb.idle, fun _ => hN⟩⟩
-      · exact ⟨⟨pt.idle, pt.inval, fun _ => ⟨hb, hgt, hrid⟩⟩, ⟨sb.next, sb.idle, fun _ => hN⟩⟩
+      · exact hge
+    obtain ⟨pt, sb⟩ := hd
+    obtain ⟨f1, f2, f3, f4, f5, f6, f7, f8, f9, f10, f11, f12⟩ := handOut_frame db1 r
+    have hc := hp.clock
+    refine ⟨⟨?_, ?_, ?_⟩, ⟨?_, ?_, ?_⟩⟩
+    · intro x hx
+      rw [f10] at hx
+      rw [f9, f8, f7]
+      exact pt.idle x hx
+    · rw [f8, f9]; exact pt.inval
+    · intro _
+      rw [f9, f8, f7, f11, f12, hp.invalTime, hp.nextRid]
+      exact ⟨by omega, hgt, hrid⟩
+    · rw [f7]; exact sb.next
+    · intro x hx
+      rw [f10] at hx
+      rw [f8]
+      exact sb.idle x hx
+    · intro _
+      rw [f11]; exact hN
+  · intro db1 hp
+    exact newRaw_gen (preSpec_gen hp hg)
+  · intro d h
+    exact tick_gen h
+  · intro d h
+    exact newRaw_gen h
+
+theorem addNone_gen {N : Nat} {db : DB} (hg : Gen N db false) :
+    Gen N { db with idle := db.idle ++ [none] } false := by
+  obtain ⟨pt, sb⟩ := hg
+  have hsub : ∀ r, some r ∈ db.idle ++ [none] → some r ∈ db.idle := fun r hr => by
+    rcases List.mem_append.1 hr with h | h
+    · exact h
+    · simp at h
+  exact ⟨⟨fun r hr => pt.idle r (hsub r hr), pt.inval, fun e => by cases e⟩,
+         ⟨sb.next, fun r hr => sb.idle r (hsub r hr), fun e => by cases e⟩⟩
 
 theorem kill_gen {N : Nat} {db : DB} {h : Bool} (hg : Gen N db h) : Gen N (db.kill) false := by
   obtain ⟨pt, sb⟩ := hg
@@ -117,11 +170,29 @@ theorem data_gen {N : Nat} {db db' : DB} {h : Bool} (hd : DataOnly db db') (hg :
     simp only [hd.rid]
     exact sb.held e
 
+/-- a failed `Pool.connect()` keeps the generation invariant -/
+theorem checkoutFail_gen {N : Nat} {db db' : DB} {k : FKind} (h : db.checkoutF = (db', some k))
+    (hg : Gen N db false) : Gen N db' false := by
+  obtain ⟨db1, hasRec, db2, hx, hf, he⟩ := checkoutF_some h
+  have hp := checkoutPre_spec db
+  rw [hx] at hp
+  have h1 := preSpec_gen hp hg
+  have h2 : Gen N db2 false := by
+    have := takeFault_dataOnly db1 .connect
+    rw [hf] at this
+    exact data_gen this h1
+  have h3 := tick_gen h2
+  rw [he]
+  cases hasRec with
+  | false => exact h3
+  | true => exact addNone_gen h3
+
 theorem evo_gen {N : Nat} {s s' : St} (he : Evo s s') : Gen N s.1 s.2 → Gen N s'.1 s'.2 := by
   induction he with
   | refl s => exact id
   | data hd => exact data_gen hd
   | checkout => exact checkout_gen
+  | checkoutFail h => exact checkoutFail_gen h
   | disc => intro hg; exact kill_gen (poolInvalidate_gen hg)
   | kill => exact kill_gen
   | trans _ _ ih1 ih2 => exact fun hg => ih2 (ih1 hg)
@@ -296,15 +367,6 @@ theorem connect_gen {N : Nat} {db : DB} (hg : Gen N db false) : GenC N (Conn.con
     induction l with
     | nil => intro d h; exact h
     | cons b bs ih => intro d h; exact ih _ (data_gen (applyChar_dataOnly d b) h)
-  have he : db.checkout.engineOpts = db.engineOpts := by
-    unfold DB.checkout
-    split
-    · rfl
-    · rfl
-    · simp only []
-      split
-      · rfl
-      · split <;> rfl
   show Gen N db.connectRaw true
   unfold DB.connectRaw
   exact key _ _ (checkout_gen hg)
@@ -337,14 +399,18 @@ theorem newRaw_mono (db : DB) : Mono db db.newRaw := by
   simp [Mono, DB.newRaw, DB.tick]
 
 theorem checkout_mono (db : DB) : Mono db db.checkout := by
-  unfold DB.checkout
-  split
-  · exact newRaw_mono db
-  · exact newRaw_mono _
-  · simp only []
-    split
-    · exact newRaw_mono _
-    · split <;> exact ⟨Nat.le_refl _, rfl, Nat.le_refl _⟩
+  apply checkout_cases db (fun d => Mono db d)
+  · intro db1 r hp
+    obtain ⟨f1, f2, f3, f4, f5, f6, f7, f8, f9, f10, f11, f12⟩ := handOut_frame db1 r
+    exact ⟨by rw [f9]; exact hp.clock, by rw [f8]; exact hp.invalTime, by rw [f7, hp.nextRid]; exact Nat.le_refl _⟩
+  · intro db1 hp
+    have := newRaw_mono db1
+    exact ⟨Nat.le_trans hp.clock this.1, this.2.1.trans hp.invalTime, by rw [← hp.nextRid]; exact this.2.2⟩
+  · intro d h
+    exact ⟨Nat.le_trans h.1 (Nat.le_succ _), h.2.1, h.2.2⟩
+  · intro d h
+    have := newRaw_mono d
+    exact ⟨Nat.le_trans h.1 this.1, this.2.1.trans h.2.1, Nat.le_trans h.2.2 this.2.2⟩
 
 theorem applyChar_mono (db : DB) (b : Bool) : Mono db (db.applyChar b) := by
   unfold DB.applyChar
@@ -752,17 +818,11 @@ theorem reconnect_execute {c : Conn} (h1 : c.hasDbapi = false) (h2 : c.canReconn
     (c.execute (.stmt s)).1.db.raw.rid = c.db.checkout.raw.rid := by
   -- the state after the checkout and the autobegin
   let c1 : Conn := { c with hasDbapi := true, db := c.db.checkout }
-  have hcp : c.connProp = (c1, .ok) := by simp [Conn.connProp, Conn.revalidate, h1, h2, h3, c1]
+  have hcp : c.connProp = (c1, .ok) := by
+    simp [Conn.connProp, Conn.revalidate, h1, h2, h3, c1, checkoutF_nofault hf]
   have hf1 : c1.db.faults = [] := by
     show c.db.checkout.faults = []
-    unfold DB.checkout
-    split
-    · simpa [DB.newRaw, DB.tick] using hf
-    · simpa [DB.newRaw, DB.tick] using hf
-    · simp only []
-      split
-      · simpa [DB.newRaw, DB.tick] using hf
-      · split <;> simpa using hf
+    rw [checkout_faults]; exact hf
   have hcur : c1.dbapiCall .cursor id = (c1, .ok) := by
     rw [dbapiCall_nofault _ _ _ hf1]; rfl
   have hstale : c1.stale = false := by simp [Conn.stale, c1, h3, h4]
@@ -803,14 +863,7 @@ theorem reconnect_execute {c : Conn} (h1 : c.hasDbapi = false) (h2 : c.canReconn
       subst hr
       have hl1 : c1.pushRoot.db.listener = c.db.listener := by
         show c.db.checkout.listener = c.db.listener
-        unfold DB.checkout
-        split
-        · simp [DB.newRaw, DB.tick]
-        · simp [DB.newRaw, DB.tick]
-        · simp only []
-          split
-          · simp [DB.newRaw, DB.tick]
-          · split <;> rfl
+        exact checkout_listener _
       have hpe : c1.pushRoot.dbapiError .err = (c1.pushRoot, .operational) := by
         have : (c1.pushRoot.db.listener == Listener.forceDisc) = false := by
           rw [hl1]; simpa using hl
